@@ -374,6 +374,30 @@ def run_shard(spec, ctx):
                     continue
                 check_text(ctx, text, deep=False)
                 ctx.count("message_payload_texts")
+        # characters without a name, unassigned, private, non-characters, lone surrogates, controls - wherever a word can
+        # stand, alone and glued to words, numbers and operators
+        odd = ["\x80", "\x85", "\x9f", "\ue000", "\uf8ff", "\uffff", "\ufffe", "\u0378", "\U000e0000", "\U0010ffff", "\ud800", "\udfff", "\x00", "\x01", "\x7f", "\x1b",
+               "\u200b", "\u2028", "\ufeff", "\u00a0", "\u2013", "\u201c", "\u00ad", "\u0301", "\U0001f600", "\u2460", "\u00b2"]
+        for ch in odd:
+            for text in (ch, "a" + ch, ch + "a", "x " + ch + " y", "1" + ch, ch + "1", "f(" + ch + ")", "def " + ch + " = 1", "'s'" + ch, "1 +" + ch, "[" + ch + "]", "#" + ch + "\n1",
+                         "x->" + ch, ch + ch, "<<" + ch + ">>"):
+                check_text(ctx, text, deep=False)
+                ctx.count("odd_character_texts")
+        # pattern literals: what the host's regular expression compiler rejects - in whatever way it rejects it - is a
+        # syntax error of the program
+        flags = "aiLmsuxT-"
+        for f1 in flags:
+            for f2 in flags:
+                for text in ("//(?%s)(?%s)a//" % (f1, f2), "//(?%s%s)a//" % (f1, f2), "//(?%s:(?%s)a)//" % (f1, f2), "//a(?%s)(?%s-%s:b)//" % (f1, f2, f1)):
+                    check_text(ctx, text, deep=False)
+                    ctx.count("pattern_flag_texts")
+        rx_alpha = ["a", "b", "(", ")", "?", "*", "+", "[", "]", "{", "}", "|", "\\", "^", "$", ".", "i", "u", "L", "P", "<", ">", "1", "2", ",", "-", ":", "=", "!", "#", "d", "w", "N", "x", "0"]
+        for _ in range(6000):
+            body = "".join(r.choice(rx_alpha) for _ in range(r.randint(1, 9)))
+            if "//" in body:
+                continue
+            check_text(ctx, "//" + body + "//", deep=False)
+            ctx.count("pattern_soup_texts")
         # very long single tokens
         for n in (100, 1000, 4299, 4300, 4301, 5000, 20000):
             for text in ("9" * n, "1" + "0" * n, "0x" + "f" * n, "0b" + "1" * n, "1_" * n + "1", "0." + "3" * n, "9" * n + ".5",
